@@ -288,7 +288,7 @@ def impl_history(arg):
     return parse_in_mode(2, last)
 
 def model_arg(fn, arg):
-    if fn in (10, 11):
+    if fn in (10, 11, 15):
         text, _ = render(decode_items(arg[0]), arg[1])
         return [text]
     if fn == 12:
@@ -301,10 +301,13 @@ FUNCS = {
     5: ('bibtex.month_names', impl_months, 'X'),
     10: ('parse_string(render(layout, abstract_db), "bibtex")', impl_render_parse, ('T', 'X', ('T', 'N', 'N', 'N', 'N', 'N', 'N'))),
     11: ('list(LowLevelParser(render(layout, abstract_db)))', impl_render_low, ('T', 'X', ('T', 'N', 'N', 'N', 'N', 'N', 'N'))),
+    15: ('parse_string(render(layout, abstract_db), "bibtex") -- entry keys with non-ASCII cased letters (judged by the oracle only)', impl_render_parse, ('T', 'X', ('T', 'N', 'N', 'N', 'N', 'N', 'N'))),
     12: ('history: earlier readings, then parse_string(render(layout, abstract_db)) [kind 0/1: independent readers; 2: one Parser instance]', impl_history, ('T', 'N', ('L', 'X'), 'X', 'X', 'S')),
 }
 
 def canon(fn, r):
+    if fn == 15:      # the model's lower() is ASCII: keys with other cased letters are judged by the oracle (str.lower) only
+        return [r[0]] if isinstance(r, list) and r else r
     if fn in (10, 12):
         return canon_parse(r, clean_only=False)
     if fn == 11:
@@ -316,7 +319,7 @@ def canon(fn, r):
     return r
 
 def describe(fn, arg):
-    if fn in (10, 11):
+    if fn in (10, 11, 15):
         items = decode_items(arg[0])
         return {'abstract_db': items, 'layout': arg[1], 'rendering': render(items, arg[1])[0]}
     if fn == 3:
@@ -328,7 +331,7 @@ def describe(fn, arg):
     return {'fn': fn}
 
 def nontrivial(fn, arg, out):
-    if fn in (10, 12):
+    if fn in (10, 12, 15):
         return out[0] == 0 and len(out[1][0]) > 0
     return bool(out)
 
@@ -356,7 +359,7 @@ def oracle(fn, arg, out):
         items = decode_items(arg[2])
         _, spelled = render(items, arg[3])
         return check_denotation(items, spelled, out, exact=not suffix)
-    if fn != 10:
+    if fn not in (10, 15):
         return None
     items = decode_items(arg[0])
     text, spelled = render(items, arg[1])
@@ -458,6 +461,75 @@ def random_db(rng):
             items.append(['E', rng.choice(['article', 'Book', 'MISC', 'inProceedings', 'x.y']), key, fs])
     return items
 
+# entry keys with non-ASCII letters: pairs equal under str.casefold() but different under str.lower()
+# (distinct entries), and pairs equal under str.lower() (the second is a repeated key)
+KEY_PAIRS_DISTINCT = [('Wei\u00df2001', 'Weiss2001'), ('\u017ftart', 'start'), ('\u03bb\u03cc\u03b3\u03bf\u03c2', '\u03bb\u03cc\u03b3\u03bf\u03c3'),
+                      ('\ufb01sh', 'fish'), ('stra\u00dfe', 'STRASSE'), ('\u0130x', 'ix')]
+KEY_PAIRS_SAME = [('\u00c9cole', '\u00e9cole'), ('\u212a1', 'k1'), ('\u03a3x', '\u03c3x'), ('\u00d8re', '\u00f8RE'), ('\u0416uk', '\u0436UK')]
+
+def needs_oracle_only(items):
+    for it in items:
+        if it[0] == 'E':
+            for ch in it[2]:
+                if ord(ch) > 127 and ch.lower() != ch:
+                    return True
+    return False
+
+def nonascii_key_dbs(rng, n):
+    for i in range(n):
+        items = []
+        pairs = rng.sample(KEY_PAIRS_DISTINCT, 2) + rng.sample(KEY_PAIRS_SAME, 2)
+        rng.shuffle(pairs)
+        for (a, b) in pairs:
+            if rng.random() < 0.5:
+                a, b = b, a
+            items.append(['E', 'book', a, [['F', 'title', [['T', 'first ' + a]]]]])
+            if rng.random() < 0.4:
+                items.append(['J', 'text'])
+            items.append(['E', 'misc', b, [['F', 'note', [['T', 'second ' + b]]]]])
+        yield items
+    # the casefold-only pairs alone (no other cased letter): also compared with the model
+    for (a, b) in KEY_PAIRS_DISTINCT[:5]:
+        for x, y in ((a, b), (b, a)):
+            yield [['E', 'book', x, [['F', 'title', [['T', 'one']]]]], ['E', 'book', y, [['F', 'title', [['T', 'two']]]]], ['E', 'book', x, [['F', 'title', [['T', 'three']]]]]]
+
+def respell(rng, name):
+    return rng.choice([name, name.lower(), name.upper(), name.capitalize(), ''.join(c.upper() if i % 2 else c.lower() for i, c in enumerate(name))])
+
+def redefinition_dbs(rng, n):
+    """macro use -> redefinition (same / other letter case, also of a month) -> re-use under each spelling"""
+    for i in range(n):
+        name = rng.choice(['jnl', 'jan', 'Pub', 'dec', 'mm', 'may', 'x.y'])
+        items = []
+        if name.lower() not in MONTHS or rng.random() < 0.3:
+            items.append(['S', respell(rng, name), [['T', 'first value']]])
+        k = 0
+        for round_ in range(rng.randint(2, 4)):
+            for _ in range(rng.randint(1, 2)):
+                k += 1
+                fs = [['F', 'f%d' % j, [['M', respell(rng, name)]] + ([['T', ' + '], ['M', respell(rng, name)]] if rng.random() < 0.4 else [])] for j in range(rng.randint(1, 3))]
+                items.append(['E', 'misc', 'u%d' % k, fs])
+            if rng.random() < 0.3:
+                items.append(['P', [['M', respell(rng, name)]]])
+            # redefinition, possibly in terms of the old value
+            val = [['T', 'value %d' % round_]]
+            if rng.random() < 0.4:
+                val = [['M', respell(rng, name)], ['T', ' again']]
+            items.append(['S', respell(rng, name), val])
+        k += 1
+        items.append(['E', 'misc', 'u%d' % k, [['F', 'last', [['M', n_]]] for n_ in (name, name.upper(), name.lower(), name.capitalize())][:rng.randint(1, 4)]])
+        yield items
+
+def split_sources(items, rng):
+    """cut an item list into 2-3 consecutive sources (for one reader that reads several strings)"""
+    if len(items) < 3:
+        return [items]
+    cuts = sorted(rng.sample(range(1, len(items)), rng.choice([1, 2]) if len(items) > 3 else 1))
+    out, prev = [], 0
+    for c in cuts + [len(items)]:
+        out.append(items[prev:c]); prev = c
+    return out
+
 def random_text(rng):
     words = ['alpha', 'Beta', '12', '{Gamma}', '{nested {deep {er}}}', ',', '=', '#', '(', ')', '%', '~', '\\"o', "{\\'e}", '-', '@'[:0], ' and ', '€', '→']
     seps = [' ', ' ', '  ', '\n', '\r\n', '\t', '\xa0', ' ', '']
@@ -511,6 +583,20 @@ def gen(tier, rng):
             yield ('random', 10, [w, lay])
         if i % 5 == 0:
             yield ('lowlevel', 11, [w, lay])
+    # entry keys with non-ASCII letters (casefold-equal pairs stay distinct, lower-equal pairs repeat)
+    for items in nonascii_key_dbs(rng, 60 if tier == 'quick' else 600):
+        w = encode_items(items)
+        lay = [rng.choice([0, 1, 2]), rng.choice([0, 1, 3]), 0, rng.choice([0, 1, 2, 3]), rng.choice([0, 1]), rng.randint(0, 10 ** 6)]
+        yield ('nonascii_keys', 15 if needs_oracle_only(items) else 10, [w, lay])
+    # macro use -> redefinition in the same / another letter case -> re-use, in one source ...
+    for items in redefinition_dbs(rng, 300 if tier == 'quick' else 3000):
+        lay = [rng.choice([0, 1, 2]), rng.choice([0, 1, 2, 3, 4]), 0, rng.choice([0, 1, 2, 3]), rng.choice([0, 1]), rng.randint(0, 10 ** 6)]
+        yield ('macro_redefinition', 10, [encode_items(items), lay])
+        # ... and across the sources of ONE reader (history kind 2)
+        if rng.random() < 0.5:
+            parts = split_sources(items, rng)
+            earlier = [[ord('D'), encode_items(p_), lay] for p_ in parts[:-1]]
+            yield ('macro_redefinition_sources', 12, [2, earlier, encode_items(parts[-1]), lay, ''])
     # history: earlier readings in the same process, then the reading that is compared
     RAW = ['@string{jan = "Jan."}', '@string{JAN = {X}} @string{mm = "other"} @string{Pub = 7}', '@string{newmacro = "N"} @a{k1, t = newmacro, month = mar}',
            '@string{feb = 1} @a{k, t = ', '@preamble{"p"} @string{dec = "D" # jan} @string{x1 = dec}', '@a{k1, month = jan, author = {A, B, C, D}, month = feb}',
